@@ -444,6 +444,8 @@ class DirWatch:
             # builtin open() of a temporary file of one of the watched destinations (the process-pool workers and the legacy
             # downloader open it directly, below every OSUtils wrapper): a planned fault makes the open itself fail
             p = args[0]
+            if isinstance(p, str) and not os.path.isabs(p) and getattr(obs, 'prev_cwd', None) is not None:
+                p = os.path.abspath(p)
             if not isinstance(p, str) or not p.startswith(self._tmp_prefix):
                 return
             dn, bn = os.path.split(p)
@@ -462,6 +464,8 @@ class DirWatch:
                         return
             return
         paths = [p for p in args[:2] if isinstance(p, str)]
+        if getattr(obs, 'prev_cwd', None) is not None:
+            paths = [os.path.abspath(p) for p in paths]
         for x in getattr(obs, 'xfers', ()):
             if x.kind == 'download' and isinstance(x.dest, str) and x.dest in paths and x.fifo_reader is None:
                 d = obs.world.director
